@@ -65,13 +65,17 @@ def addNoCarry (a b : Bytes) : Bytes := (a.zip b).map fun (x, y) => UInt8.ofNat 
 def kholawIndexBytes (s : Scheme) (idx : Nat) : Bytes :=
   if s = .byronLegacy then Bytes.ofNatBE 4 idx else Bytes.ofNatLE 4 idx
 
-/-- `_NewPrivateKeyLeftPart` -/
+/-- `_NewPrivateKeyLeftPart`.  BIP32-Ed25519 (Khovratovich-Law / Icarus): `Bip32KeyError` when the
+sum `kL + 8·zL[:28]` is `≡ 0 (mod L)`, and also `Bip32KeyError` (no longer `OverflowError`) when it
+does not fit in 32 bytes; the `mod L` test comes first. -/
 def kholawNewLeft (s : Scheme) (zl kl : Bytes) : R Bytes :=
   if s = .byronLegacy then
     toBytesLE ((Bytes.toNatLE (mulNoCarry8 zl) + Bytes.toNatLE kl) % edL) 32
   else
     let v := Bytes.toNatLE (zl.take 28) * 8 + Bytes.toNatLE kl
-    if v % edL = 0 then throw .key else toBytesLE v 32
+    if v % edL = 0 then throw .key
+    else if 2 ^ 256 ≤ v then throw .key
+    else toBytesLE v 32
 
 def kholawNewRight (s : Scheme) (zr kr : Bytes) : R Bytes :=
   if s = .byronLegacy then pure (addNoCarry zr kr)
